@@ -404,6 +404,10 @@ impl Configuration {
         region_dispatch!(self, get_datarate, dr)
     }
 
+    pub(crate) fn is_uplink_datarate(&self, dr: u8) -> bool {
+        region_dispatch!(self, is_uplink_datarate, dr)
+    }
+
     pub(crate) fn check_tx_power(&self, tx_power: u8) -> Option<Option<u8>> {
         region_dispatch!(self, check_tx_power, tx_power).map(Some)
     }
@@ -548,6 +552,12 @@ pub(crate) trait RegionHandler {
     ) -> (bool, bool);
 
     fn get_datarate(&self, dr: u8) -> Option<&Datarate>;
+
+    /// Whether `dr` is a data rate the device may transmit with (fixed plans define
+    /// downlink-only data rates as well).
+    fn is_uplink_datarate(&self, dr: u8) -> bool {
+        self.get_datarate(dr).is_some()
+    }
 
     fn get_default_datarate(&self) -> DR {
         DR::_0
